@@ -148,6 +148,13 @@ def run(res):
         progs.append(g.program())
     cdir = os.path.join(C.VERIF, "corpus", "C20")
     wit = [open(os.path.join(cdir, f)).read() for f in sorted(os.listdir(cdir))] if os.path.isdir(cdir) else []
+    # constructs the statement generator does not produce: pipe chains (a line break is permitted after EVERY pipe), sends and
+    # receives, method chains, multi-line calls
+    def pipe_prog():
+        stages = [rng.choice(["f", "g", "sorted", "len", "string", "h(1)", "func(v) { return v }"]) for _ in range(2 + rng.below(4))]
+        head = rng.choice(["x", "[3, 1, 2]", "\"abc\"", "f(2)"])
+        return "f := func(v) { return v }\ng := f\nh := func(a) { return func(v) { return v } }\nx := [1]\ny := %s | %s\ny" % (head, " | ".join(stages))
+    progs += [pipe_prog() for _ in range(max(40, nprog // 10))]
     base = wit + progs
 
     work = tempfile.mkdtemp(prefix="c20-", dir=C.WORK)
